@@ -217,6 +217,11 @@ def layout(draw, max_n=64, max_parts=5, backends=('flat', 'flat', 'npy', 'array'
         lay['nonfinite'] = True         # NaN / +-inf samples (not offered to the integer codec)
     if backend != 'array' and draw(st.integers(0, 3)) == 0:
         lay['relpath'] = True           # opened by relative name, then the process changes directory
+    if backend == 'npy' and draw(st.booleans()):
+        lay['fortran'] = True
+    if backend in ('npy', 'array') and draw(st.integers(0, 2)) == 0:
+        lay['params_kw'] = draw(st.sampled_from(['int16', 'float32', lay['dtype'].lstrip('<>=')
+                                                 if lay['dtype'][0] not in '<>' else 'int16']))
     return lay
 
 
@@ -229,6 +234,14 @@ class OpenReader(object):
         # an existing directory to (re)write the recording into: the files are written aside and
         # moved over the old ones, as a re-export or a copy of newer data does
         self.dirpath = dirpath
+
+    @staticmethod
+    def _kw(lay):
+        """The keyword route of the model: a params file always declares n_channels_dat, dtype
+        and offset, also for .npy / in-memory data, where the stored array is what counts."""
+        if not lay.get('params_kw'):
+            return {}
+        return dict(n_channels_dat=lay['nch'], dtype=lay['params_kw'], offset=0)
 
     def __enter__(self):
         from phylib.io.traces import get_ephys_reader
@@ -274,15 +287,16 @@ class OpenReader(object):
                 self.sample_rate = rec.rate_for_chunk(lay['chunk'])
                 if b == 'array':
                     self.reader = self.must_return('get_ephys_reader', get_ephys_reader, self.A,
-                                                   sample_rate=self.sample_rate)
+                                                   sample_rate=self.sample_rate, **self._kw(lay))
                 elif b == 'npy':
                     p = d / 'raw.npy'
-                    np.save(p, self.A)
+                    # (a channel-major buffer saved transposed is a Fortran-ordered .npy file)
+                    np.save(p, np.asfortranarray(self.A) if lay.get('fortran') else self.A)
                     if final:
                         os.replace(p, final / p.name)
                         p = final / p.name
                     self.reader = self.must_return('get_ephys_reader', get_ephys_reader, arg_of(p),
-                                                   sample_rate=self.sample_rate)
+                                                   sample_rate=self.sample_rate, **self._kw(lay))
                 else:
                     paths = rec.write_flat(d, self.A, lay['parts'], lay['offset'],
                                            ext=lay.get('ext', '.dat'), order=lay.get('names', 'asc'))
